@@ -17,7 +17,7 @@ func propC04() Property {
 		ID: "C04",
 		Explanation: "R1 (typestate): a recovering session that sent a TestRequest is pendingTimeout{resendState}; every type test on a session state value that has an arm for a type that can be wrapped must test an UNWRAPPED operand (the switch also handles the wrapper, or the operand comes from an unwrapping function). Otherwise recovery is treated as 'not recovering': a second ResendRequest is sent and the stash is replaced. " +
 			"R2: in the too-high arm the early message is stored in the returned state's stash under its own MsgSeqNum on every path that returns a recovery state. R3: every recovery state produced while already recovering (next chunk) carries the receiver's stash. " +
-			"R4: ResendRequest fields: BeginSeqNo(7) ← begin parameter; EndSeqNo(16) ← chunk end or the infinity marker, 999999 only below FIX.4.2 and 0 otherwise; the too-high handler requests (expected, received-1); continuation chunks begin at the store's next expected number. R5: the stash is drained by looking up and deleting exactly the store's next expected number and feeding the message to the in-session handler. R6: resendState is a value type whose copies share the stash only through the map; every function that creates a fresh recovery state allocates its stash before returning it, so that a message stashed through one copy is seen by the copy that is kept. R7 (shared with C01): the expected number advances only for a message shown to carry it — serving a ResendRequest numbered above the expectation must not consume the number of a message that never arrived. R8: the ResendRequest builder returns a nil error only on the nil-error edge of the call that sends the request.",
+			"R4: ResendRequest fields: BeginSeqNo(7) ← begin parameter; EndSeqNo(16) ← chunk end or the infinity marker, 999999 only below FIX.4.2 and 0 otherwise; the too-high handler requests (expected, received-1); continuation chunks begin at the store's next expected number. R5: the stash is drained by looking up and deleting exactly the store's next expected number and feeding the message to the in-session handler. R6: resendState is a value type whose copies share the stash only through the map; every function that creates a fresh recovery state allocates its stash before returning it, so that a message stashed through one copy is seen by the copy that is kept. R7 (shared with C01): the expected number advances only for a message shown to carry it — serving a ResendRequest numbered above the expectation must not consume the number of a message that never arrived. R8: the ResendRequest builder returns a nil error only on the nil-error edge of the call that sends the request. R9 (shared with C11): the handlers read each field — GapFillFlag in particular — from the section the parser files it in.",
 		NotDecided: "liveness (that the stash is eventually drained), chunk arithmetic over histories, counts of ResendRequests over a trace.",
 		Rules: []RuleDef{
 			{ID: "C04-R1", Desc: "wrapper-transparent state tests", Min: 2, Run: c04R1},
@@ -28,6 +28,7 @@ func propC04() Property {
 			{ID: "C04-R6", Desc: "every freshly created recovery state owns an allocated stash", Min: 1, Run: c04R6},
 			{ID: "C04-R7", Desc: "the expected number advances only for a message that carries it (= C01-R2)", Min: 4, Run: c01R2},
 			{ID: "C04-R8", Desc: "the recovery state is returned only when the ResendRequest was sent", Min: 1, Run: c04R8},
+			{ID: "C04-R9", Desc: "handlers read each field from the section the parser files it in (= C11-R7)", Min: 20, Run: sectionAccessRule},
 		},
 	}
 }
